@@ -11,6 +11,7 @@
           W:<func-hex>:<well-hex,…|->  (`SummaryState::wells(func)`; the MODEL matches the pattern)
           L:<name-hex>:<well-hex,…|->  (one WLIST, in `std::map` order)
     action.classify <text-hex>                -> <token class>
+    action.numval <text-hex>                  -> <token class> [<bits of the value | ->]   (`parse_right`)
     action.dequote <text-hex>                 -> <text-hex> | err
     action.glob <pattern-hex> <name-hex>      -> 0 | 1
     action.sim <ev>*                          -> <name>.<id>@<t>,… | -  ;  <name>.<id>=<count>:<last> …
@@ -44,8 +45,8 @@ def parseOp : String → Option CmpOp
 def opCode : CmpOp → Nat
   | .gt => 4 | .ge => 5 | .lt => 6 | .le => 7 | .eq => 8 | .ne => 9
 
-/-- a raw token: the MODEL classifies the text (`Parser::get_type`); `bv` = what `strtod` returns,
-`fv` = `get_func` code -/
+/-- a raw token: the MODEL classifies the text (`Parser::get_type`) and computes the value of a number
+(`numBits`); `bv` = what the real `strtod` returns (used for `nan(chars)` only), `fv` = `get_func` code -/
 def mkTok (text : String) (bv fv : Nat) : Tok :=
   let ty := classify text.toList
   { ty := ty,
@@ -53,7 +54,8 @@ def mkTok (text : String) (bv fv : Nat) : Tok :=
       | .lp => "(" | .rp => ")" | .and => "AND" | .or => "OR"
       | .cmp o => (match o with | .gt => "gt" | .ge => "ge" | .lt => "lt" | .le => "le" | .eq => "eq" | .ne => "ne")
       | _ => text),
-    bits := (match ty with | .number => bv.toUInt64 | _ => 0),
+    -- fourth round: the model computes the value of a number token itself; only `nan(chars)` falls back
+    bits := (match ty with | .number => ((numBits text.toList).getD bv).toUInt64 | _ => 0),
     func := (match ty with | .expr => fv | _ => 0) }
 
 /-- deck tokens: `dequote` first (inner `none` = unbalanced quote) -/
@@ -289,6 +291,17 @@ def handle (op : String) (args : List String) : String :=
       | some text =>
         (match classify text.toList with
          | .number => "number" | .expr => "expr" | .lp => "lp" | .rp => "rp" | .and => "and" | .or => "or"
+         | .cmp o => "cmp" ++ toString (opCode o))
+      | none => "bad-op"
+    | _ => "bad-op"
+  | "action.numval" =>
+    match args with
+    | [t] =>
+      match hexStr t with
+      | some text =>
+        (match classify text.toList with
+         | .number => "number " ++ (match numBits text.toList with | some b => natHex16 b | none => "-")
+         | .expr => "expr" | .lp => "lp" | .rp => "rp" | .and => "and" | .or => "or"
          | .cmp o => "cmp" ++ toString (opCode o))
       | none => "bad-op"
     | _ => "bad-op"
